@@ -31,8 +31,8 @@ EXPLANATION = (
     'with the registered placeholders; emit_wrapped_text forwards each wrapping option to the '
     'like-named textwrap.fill parameter. R4: indent/block restore cur_indent symmetrically. '
     'Decides these structural parts; word order of wrapped text is textwrap\'s.'
-    ' RD (decision drift, stonelint.conddrift): the tests of the functions this property is anchored in (stonelint.ownership) are compared with reference/conditions.json; a relation, polarity or connective changed over the same operands, or an operand purely added or dropped, is a violation; re-spellings and new or removed tests are not claimed.'
-    " RE (expression drift, stonelint.exprdrift): the same functions' attribute names, variable reads, simple statements, calls and arithmetic/slice literals are compared with reference/expressions.json; a substituted attribute or variable, a dropped call or assignment, swapped arguments or a changed literal is a violation; any other edit is not claimed. RC (call-condition drift, stonelint.conddrift.run_calls): for every call of a repository or imported-library function in those functions, the path conditions of its occurrences are compared with reference/conditions.json by truth table; an assignment under which the function used to make the call and now completes without it is a violation (tests on memo tables, emptiness of the iterated collection and earlier refusals excepted; re-spelled conditions are not claimed). MK (memo-key rule, stonelint.memo): a memo table or done-set the reference tree does not have must be keyed by every access path the skipped code reads, injectively and type-aware.")
+    ' RD (effect-condition drift, stonelint.effects): for the functions this property is anchored in (stonelint.ownership) the path formula of every raise / return / continue / break / assignment / call statement is compared with reference/effects.json by truth table over the leaf tests (so nested vs merged tests, guard clauses vs if/else ladders, De Morgan forms read alike); an effect lost on a path, or a control effect gained on one, is a violation; changed texts and re-spelled tests are not claimed.'
+    " RE (expression drift, stonelint.exprdrift): the same functions' attribute names, variable reads, simple statements, calls and arithmetic/slice literals are compared with reference/expressions.json; a substituted attribute or variable, a dropped call or assignment, swapped arguments or a changed literal is a violation; any other edit is not claimed. RC (call-condition drift, stonelint.effects.run_calls): for every call of a repository or imported-library function in those functions, the path conditions of its occurrences are compared with reference/effects.json by truth table; an assignment under which the function used to make the call and now completes without it is a violation (tests on memo tables, emptiness of the iterated collection and earlier refusals excepted; re-spelled conditions are not claimed). MK (memo-key rule, stonelint.memo): a memo table or done-set the reference tree does not have must be keyed by every access path the skipped code reads, injectively and type-aware.")
 ASSUMPTIONS = [
     'library model: shutil.copy(src, dst) writes to join(dst, basename(src)) when dst is a '
     'directory, else to dst; os.path.relpath/abspath normalise `..` segments lexically',
@@ -315,7 +315,7 @@ def run(pm, ctx):
               key='C18-R3|%s|lineno' % er.qualname)
     ep = pm.func(B + '.Backend.emit_placeholder')
     ap = callers.get(ep.qualname, [])
-    ctx.check('C18-R3', len(ap) == 1 and unparse(ap[0].args[0]) == "'{%s}' % s",
+    ctx.check('C18-R3', len(ap) == 1 and unparse(ap[0].args[0]) == "'{{{}}}'.format(s)",
               'emit_placeholder buffers a single replacement field', ep.loc,
               msg='emit_placeholder buffers %s' % (unparse(ap[0].args[0]) if ap else '?'),
               key='C18-R3|%s' % ep.qualname)
@@ -413,12 +413,12 @@ def run(pm, ctx):
 
     multiline_list_text(pm, ctx)
 
-    from ..conddrift import run_decisions
+    from ..effects import run_decisions
     from ..ownership import OWN
     run_decisions(pm, ctx, 'C18-RD', OWN['C18'])
     from .. import exprdrift
     exprdrift.run(pm, ctx, 'C18-RE', OWN['C18'])
-    from ..conddrift import run_calls
+    from ..effects import run_calls
     run_calls(pm, ctx, 'C18-RC', OWN['C18'])
     from .. import memo
     memo.run(pm, ctx, 'C18-MK', OWN['C18'])
